@@ -83,6 +83,8 @@ class FnSpec:
     segment_outputs: list = field(default_factory=list)  # [(local, type)] the value of a segment: these locals at its end
     segment_stmt: str | None = None    # a ONE-statement segment: the statement (anywhere in the body, also inside `with`
                                        # blocks) whose source starts with this text, found exactly once
+    segment_last: str | None = None    # with segment_stmt: the segment runs from that statement to the one (in the same
+                                       # statement list) whose source starts with this text, inclusive
     segment_inputs: list = field(default_factory=list)   # [(local, type)] locals the segment reads: parameters of the result
     skip_params: list = field(default_factory=list)  # Python parameters that are not passed (replaced by stmt shapes)
     extra_params: list = field(default_factory=list)  # [(coq name, type)] extra parameters introduced by shapes
@@ -111,6 +113,9 @@ class Unit:
                                                     # element in place with e (copy_)
     scalar_consts: dict | None = None              # when set: a float literal is a SCALAR of type 'S' (value -> Coq text)
     mixed_ops: dict = field(default_factory=dict)  # (left type, op name, right type) -> (Coq function, result type)
+    cmp_ops: dict = field(default_factory=dict)    # (left type, lt|le|gt|ge|eq|ne, right type) -> (Coq function, result type)
+    masked_ops: dict = field(default_factory=dict)  # (tensor type, mask type, op name, value type) -> Coq function:
+                                                   #   x[mask] op= v   is   x := f x mask v
     item_get: dict = field(default_factory=dict)   # (container type, key type) -> (Coq function, result type)
     item_set: dict = field(default_factory=dict)   # (container type, key type, value type) -> Coq function
 
@@ -278,6 +283,10 @@ class FnTranslator:
             return "Sc"
         if t == "str":
             return "string"
+        if t == "TL":
+            return "TenL"
+        if t == "M":
+            return "Mask"
         if t in ("bool", "unit", "nat"):
             return t
         if t == "numtype":
@@ -555,6 +564,16 @@ class FnTranslator:
         return parts[0](env, first)
 
     def e_Compare(self, e, env, k):
+        if len(e.ops) == 1 and self.unit.cmp_ops and not isinstance(e.ops[0], (ast.In, ast.NotIn, ast.Is, ast.IsNot)):
+            opn = {ast.Lt: "lt", ast.LtE: "le", ast.Gt: "gt", ast.GtE: "ge", ast.Eq: "eq", ast.NotEq: "ne"}[type(e.ops[0])]
+
+            def tab(vals):
+                (lc, lt), (rc, rt) = vals
+                if (lt, opn, rt) in self.unit.cmp_ops:
+                    fn, res_t = self.unit.cmp_ops[(lt, opn, rt)]
+                    return k(f"{fn} {par(lc)} {par(rc)}", res_t)
+                return k(self.cmp1(e.ops[0], e.left, lc, lt, e.comparators[0], rc, rt, e), "bool")
+            return self.exprs([e.left, e.comparators[0]], env, tab)
         if (len(e.ops) == 1 and isinstance(e.ops[0], (ast.In, ast.NotIn)) and isinstance(e.comparators[0], (ast.List, ast.Tuple))
                 and e.comparators[0].elts and all(isinstance(x, ast.Constant) and isinstance(x.value, str)
                                                   for x in e.comparators[0].elts)):
@@ -1027,6 +1046,23 @@ class FnTranslator:
         for n in ast.walk(load):
             if hasattr(n, "ctx"):
                 n.ctx = ast.Load()
+        if isinstance(s.target, ast.Subscript) and isinstance(s.target.value, ast.Name) and self.unit.masked_ops:
+            # x[mask] op= v  on an abstract tensor
+            xn = s.target.value.id
+            opn = {ast.Add: "add", ast.Sub: "sub", ast.Mult: "mul"}.get(type(s.op))
+            if xn not in env:
+                self.bad(s, f"masked update of the unknown local `{xn}`")
+
+            def with_mask(mc, mt):
+                def with_val(vc, vt):
+                    key = (env[xn][1], mt, opn, vt)
+                    if key not in self.unit.masked_ops:
+                        self.bad(s, f"masked update {key} is not in the client table")
+                    env2, cn = self.bind_var(xn, env, env[xn][1], s)
+                    return let_(cn, Term(f"{self.unit.masked_ops[key]} {env[xn][0]} {par(mc)} {par(vc)}", True),
+                                self.block(rest, env2, ctx))
+                return self.expr(s.value, env, with_val)
+            return self.expr(s.target.slice, env, with_mask)
         if isinstance(s.target, ast.Subscript):
             self.bad(s, "augmented assignment to a list item")
         new = ast.copy_location(ast.BinOp(left=load, op=s.op, right=s.value), s)
@@ -1471,17 +1507,24 @@ class FnTranslator:
         if spec.segment_stmt is not None:
             found = []
 
+            starts = lambda st, txt: " ".join(ast.unparse(st).split()).startswith(txt)
+
             def search(stmts):
-                for st in stmts:
-                    if " ".join(ast.unparse(st).split()).startswith(spec.segment_stmt):
-                        found.append(st)
+                for j, st in enumerate(stmts):
+                    if starts(st, spec.segment_stmt):
+                        if spec.segment_last is None:
+                            found.append([st])
+                        else:
+                            ends = [k2 for k2 in range(j, len(stmts)) if starts(stmts[k2], spec.segment_last)]
+                            if ends:
+                                found.append(list(stmts[j:ends[0] + 1]))
                     elif isinstance(st, ast.With):
                         search(st.body)
             search(body)
             if len(found) != 1:
-                self.bad(fdef, f"segment statement `{spec.segment_stmt}...` found {len(found)} times, expected once")
-            body = found
-            self.segment_span = (found[0].lineno, found[0].end_lineno)
+                self.bad(fdef, f"segment `{spec.segment_stmt}...` found {len(found)} times, expected once")
+            body = found[0]
+            self.segment_span = (body[0].lineno, body[-1].end_lineno)
         if spec.start_after is not None:
             idx = [i for i, st in enumerate(body) if spec.start_after in ast.unparse(st)]
             if len(idx) != 1:
@@ -2325,6 +2368,76 @@ CLIENTS["C17"] = Client(
                    "C17_translated_ppo_gae_is_model"),
            c17_gae("GenGaeIPPO", "agilerl/algorithms/ippo.py", "IPPO", "_learn_individual", "IPPO_learn_gae",
                    "C17_translated_ippo_gae_is_model")])
+
+
+# ---- C18: the index arithmetic of RainbowDQN._dqn_loss (t_z, b, L, u with the two fix-ups) -------------
+def is_clamp_kw(e, env):
+    return (isinstance(e, ast.Call) and not e.args and isinstance(e.func, ast.Attribute) and e.func.attr == "clamp"
+            and sorted(kw.arg for kw in e.keywords) == ["max", "min"])
+
+
+def clamp_kw(tr, e, env, k):
+    lo = [kw.value for kw in e.keywords if kw.arg == "min"][0]
+    hi = [kw.value for kw in e.keywords if kw.arg == "max"][0]
+
+    def done(vals):
+        (xc, xt), (lc, lt), (hc, ht) = vals
+        if xt == "T" and lt == "S" and ht == "S":
+            return k(f"t_clamp_s {par(lc)} {par(hc)} {par(xc)}", "T")
+        if xt == "T" and lt == "Z" and ht == "Z":
+            return k(f"t_clamp_z {par(lc)} {par(hc)} {par(xc)}", "T")
+        tr.bad(e, f"clamp of a {xt} between a {lt} and a {ht}")
+    return tr.exprs([e.func.value, lo, hi], env, done)
+
+
+def round_long(which):
+    def m(e, env):
+        return (isinstance(e, ast.Call) and not e.args and not e.keywords and isinstance(e.func, ast.Attribute)
+                and e.func.attr == "long" and isinstance(e.func.value, ast.Call) and not e.func.value.args
+                and isinstance(e.func.value.func, ast.Attribute) and e.func.value.func.attr == which)
+    return m
+
+
+def round_long_by(coq):
+    def h(tr, e, env, k):
+        return tr.expr(e.func.value.func.value, env, lambda c, t: k(f"{coq} {par(c)}", "TL") if t == "T"
+                       else tr.bad(e, f"rounding of a value of type {t}"))
+    return h
+
+
+CLIENTS["C18"] = Client(
+    pid="C18",
+    imports="From Coq Require Import List ZArith Bool.\nImport ListNotations.\nFrom AgileV Require Import TR.PyLib.",
+    equiv="coq/gen/C18_equiv.v",
+    units=[Unit(
+        file="agilerl/algorithms/dqn_rainbow.py", section="GenProjection",
+        context=("Context {Ten TenL Mask Sc : Type}.\n"
+                 "Variables (t_add t_mul : Ten -> Ten -> Ten).           (* element-wise float tensor arithmetic *)\n"
+                 "Variable z_sub_t : Z -> Ten -> Ten.                     (* python int - tensor *)\n"
+                 "Variables (t_mul_s t_sub_s t_div_s : Ten -> Sc -> Ten). (* tensor (op) python float *)\n"
+                 "Variable t_clamp_s : Sc -> Sc -> Ten -> Ten.            (* t.clamp(min=float, max=float) *)\n"
+                 "Variable t_clamp_z : Z -> Z -> Ten -> Ten.              (* t.clamp(min=int, max=int) *)\n"
+                 "Variables (t_floor_long t_ceil_long : Ten -> TenL).     (* t.floor().long(), t.ceil().long() *)\n"
+                 "Variables (l_gt_z l_lt_z : TenL -> Z -> Mask) (l_eq : TenL -> TenL -> Mask).  (* comparisons -> masks *)\n"
+                 "Variable m_and : Mask -> Mask -> Mask.                  (* mask * mask *)\n"
+                 "Variables (l_masked_sub l_masked_add : TenL -> Mask -> Z -> TenL).  (* x[mask] -= k, x[mask] += k *)"),
+        carrier=Carrier(T="Ten"),
+        variables=["t_add", "t_mul", "z_sub_t", "t_mul_s", "t_sub_s", "t_div_s", "t_clamp_s", "t_clamp_z", "t_floor_long",
+                   "t_ceil_long", "l_gt_z", "l_lt_z", "l_eq", "m_and", "l_masked_sub", "l_masked_add"],
+        mixed_ops={("T", "add", "T"): ("t_add", "T"), ("T", "mul", "T"): ("t_mul", "T"), ("Z", "sub", "T"): ("z_sub_t", "T"),
+                   ("T", "mul", "S"): ("t_mul_s", "T"), ("T", "sub", "S"): ("t_sub_s", "T"), ("T", "div", "S"): ("t_div_s", "T"),
+                   ("M", "mul", "M"): ("m_and", "M")},
+        cmp_ops={("TL", "gt", "Z"): ("l_gt_z", "M"), ("TL", "lt", "Z"): ("l_lt_z", "M"), ("TL", "eq", "TL"): ("l_eq", "M")},
+        masked_ops={("TL", "M", "sub", "Z"): "l_masked_sub", ("TL", "M", "add", "Z"): "l_masked_add"},
+        functions=[FnSpec(
+            cls="RainbowDQN", name="_dqn_loss", coq="RainbowDQN_projection_indices",
+            fields=[("support", "T"), ("v_min", "S"), ("v_max", "S"), ("delta_z", "S"), ("num_atoms", "Z")],
+            segment_stmt="t_z = rewards + (1 - dones)", segment_last="u[",
+            segment_inputs=[("rewards", "T"), ("dones", "T"), ("gamma", "S")],
+            segment_outputs=[("b", "T"), ("L", "TL"), ("u", "TL")], skip_params="*",
+            expr_matchers=[(is_clamp_kw, clamp_kw), (round_long("floor"), round_long_by("t_floor_long")),
+                           (round_long("ceil"), round_long_by("t_ceil_long"))],
+            theorem="C18_translated_projection_indices_is_model")])])
 
 
 def translate_pid(pid: str, repo: Path):
